@@ -261,7 +261,7 @@ class Check(PropertyCheck):
         """-> (per-event item lists, delivered flags, notes)"""
         ctx = self._ctx(case["transport"], case["upstream"])
         acts, conns = list(case["acts"]), list(case["conns"])
-        rendered, notes = {}, set()
+        rendered, applied, notes = {}, {}, set()
         state = {"defer": False}
 
         def on_hook(w, h):
@@ -269,6 +269,7 @@ class Check(PropertyCheck):
             f = h.flow
             rendered[id(h)] = f"hook {h.name} {self._rm(getattr(f, 'request', None))} {self._rm(f.response)} {1 if f.error else 0}"
             a = acts.pop(0) if acts else "p"
+            applied[id(h)] = a
             if a == "x": f.response = None
             elif a == "e": f.error = mflow.Error("set by addon")
             elif a.startswith("r="):
@@ -286,11 +287,12 @@ class Check(PropertyCheck):
         w = W.World(dnslayer.DNSLayer(ctx), ctx, on_hook=on_hook, on_connect=on_connect)
         w.start()
         pos = len(w.trace)
-        per_event, delivered = [], []
+        per_event, delivered, acts_at = [], [], []
 
         def collect():
             nonlocal pos
             items, opening = [], False
+            hook_acts.clear()
             for t in w.trace[pos:]:
                 if t[0] == "open": opening = True
                 elif t[0] == "openres":
@@ -299,7 +301,8 @@ class Check(PropertyCheck):
                     # server.py open_connection: the server object carries the error of an earlier attempt
                     items.append("open killed"); opening = False
                 if t[0] == "hook":
-                    if id(t[2]) in rendered: items.append(rendered[id(t[2])])
+                    if id(t[2]) in rendered:
+                        items.append(rendered[id(t[2])]); hook_acts.append(applied[id(t[2])])
                 elif t[0] == "send": items.append(f"send {'client' if t[1] == 'client' else 'server'} {hx(t[2])}")
                 elif t[0] == "close": items.append(f"close {'client' if t[1] == 'client' else 'server'}")
                 elif t[0] == "log" and "matches no query" in t[2]: notes.add("reply-dropped")
@@ -308,10 +311,11 @@ class Check(PropertyCheck):
             return items
 
         crashed = False
+        hook_acts = []
         i = 0
         while i < len(events):
             if crashed:
-                per_event.append([]); delivered.append(False); i += 1; continue
+                per_event.append([]); delivered.append(False); acts_at.append([]); i += 1; continue
             ev = events[i]
             j = i + 1
             if burst and ev[0] == "c":
@@ -325,7 +329,7 @@ class Check(PropertyCheck):
                 elif k == "cc": d = w.peer_close("client")
                 else: d = "server0" in w.conns and w.peer_close("server0")
                 delivered.append(bool(d))
-                if len(group) > 1: per_event.append([])
+                if len(group) > 1: per_event.append([]); acts_at.append([])
             if state["defer"]:
                 state["defer"] = False
                 while w.deferred_hooks and not w.errors:
@@ -334,9 +338,10 @@ class Check(PropertyCheck):
             if w.errors:
                 items.append("crash"); crashed = True
                 notes.add("crash:" + w.errors[0][0])
-            if len(group) > 1: per_event[-1] = items
-            else: per_event.append(items)
+            if len(group) > 1: per_event[-1] = items; acts_at[-1] = list(hook_acts)
+            else: per_event.append(items); acts_at.append(list(hook_acts))
             i = j
+        self._acts_at = acts_at
         return per_event, delivered, sorted(notes)
 
     @staticmethod
@@ -363,6 +368,7 @@ class Check(PropertyCheck):
     def impl(self, case):
         events = case["events"]
         given, delivered, notes = self._run(case, events)
+        acts_at = self._acts_at
         flat = lambda pe: [x for it in pe for x in it]
         variants = {}
         if case["transport"] == "tcp":
@@ -370,7 +376,7 @@ class Check(PropertyCheck):
             variants["bytewise"] = flat(self._run(case, self._bytewise(events))[0])
         if any(a[0] == "c" and b[0] == "c" for a, b in zip(events, events[1:])):
             variants["burst"] = flat(self._run(case, events, burst=True)[0])
-        obs = {"given": given, "delivered": delivered, "notes": notes, "variants": variants}
+        obs = {"given": given, "delivered": delivered, "notes": notes, "variants": variants, "acts_at": acts_at}
         self._last = (json.dumps(case, sort_keys=True), obs)
         return obs
 
